@@ -120,8 +120,8 @@ def gen_victim(rng, target, big_n, allow_txn=True):
         if allow_txn and rng.random() < 0.25:
             body = [gen_plain(rng, 0, j * 10 + b, big_n, target) for b in range(rng.randint(1, 3))]
             prog.append({'op': 'txn', 'body': body, **({'retry': True} if target == 'cache' else {})})
-        elif target == 'cache' and rng.random() < 0.08:
-            prog.append({'op': 'clear', 'retry': True})
+        # clear() is documented as an iterative, non-atomic bulk removal ("concurrent writes may occur between
+        # iterations"); it is exercised by the 'bulk' scenario, not as an atomic step of the linearizability scenario
         else:
             prog.append(gen_plain(rng, 0, j, big_n, target))
     return prog
